@@ -28,6 +28,9 @@ from sortedcontainers import SortedSet
 
 import pygamma_agreement as pa
 from simkit import world
+from simkit.adversary import Adversary
+from simkit.choices import Choices
+from simkit.rngseam import RngSeam
 from simkit.runner import digest
 from . import common
 
@@ -276,7 +279,14 @@ def run(case):
                     s, idx, kind = w.samplers[op[1] % len(w.samplers)]
                     touched_origin = w.conts[idx][1]
                     np.random.seed(op[2])
-                    w.add_cont(s.sample_from_continuum, "draw:" + kind)
+                    # every other draw goes through the RNG seam with an adversary returning legal extremes
+                    # (pivot at a bound, zero counts ...): rare draws are where samples may end up sharing state
+                    adv = Adversary(Choices(op[2]), 0.5) if op[2] % 2 else None
+                    with RngSeam(injector=adv, keep_log=False) as seam:
+                        sample = s.sample_from_continuum
+                    if adv is not None:
+                        stats["fault_rng_extreme"] = stats.get("fault_rng_extreme", 0) + sum(seam.injected.values())
+                    w.add_cont(sample, "draw:" + kind)
             elif k == "cst":
                 idx = op[1] % len(w.conts)
                 c, origin = w.conts[idx]
